@@ -2,6 +2,7 @@ package main
 
 import (
 	"fmt"
+	"go/constant"
 	"go/token"
 	"go/types"
 	"strings"
@@ -133,10 +134,12 @@ func runC20(c *Ctx) {
 	}
 	// file list
 	walkClosures := []*ssa.Function{}
-	for _, in := range g.Ins {
+	walkNode := -1
+	for n, in := range g.Ins {
 		if cc := callCommon(in); cc != nil && (extFn(cc, "path/filepath", "Walk") || extFn(cc, "path/filepath", "WalkDir")) {
 			if mc, ok := strip(cc.Args[1]).(*ssa.MakeClosure); ok {
 				walkClosures = append(walkClosures, mc.Fn.(*ssa.Function))
+				walkNode = n
 			}
 		}
 	}
@@ -165,7 +168,15 @@ func runC20(c *Ctx) {
 		if !okc {
 			bad = "the file list escapes"
 		}
+		afterWalk := g.Reach(g.Succ[walkNode], nil, nil)
 		for _, st := range stores {
+			if cs, isC := st.Val.(*ssa.Const); isC && cs.Value == nil && st.Parent() != walkClosures[0] {
+				// the empty list the variable starts with (var files []string = nil, a
+				// named result): harmless before the walk, it would drop every file after it
+				if sn, inG := g.Idx[st]; inG && !afterWalk[sn] {
+					continue
+				}
+			}
 			if st.Parent() != walkClosures[0] {
 				bad = "the file list is also written by " + m.fnName(st.Parent()) + " (not the filepath.Walk callback)"
 			}
@@ -302,19 +313,12 @@ func runC20(c *Ctx) {
 		}
 		if bad == "" {
 			okPrefix := hasFact(facts, func(f Fact) bool {
-				if f.Y != nil || f.Op != token.EQL {
+				subj, pfx, holds, ok := prefixFact(f)
+				if !ok || !holds || pfx != directive {
 					return false
 				}
-				call, ok := f.X.(*ssa.Call)
-				if !ok || !extFn(call.Common(), "strings", "HasPrefix") {
-					return false
-				}
-				cs, ok := call.Common().Args[1].(*ssa.Const)
-				if !ok || cs.Value == nil || cs.Value.ExactString() != `"`+directive+`"` {
-					return false
-				}
-				// arg0: Text of an element of declV.Doc.List
-				b, fl, ok := loadedField(call.Common().Args[0])
+				// the subject: Text of an element of declV.Doc.List
+				b, fl, ok := loadedField(subj)
 				if !ok || fl.Name() != "Text" {
 					return false
 				}
@@ -337,9 +341,9 @@ func runC20(c *Ctx) {
 		// the comment loop: the innermost loop around the directive test
 		var inner *ssa.BasicBlock
 		var innerBody map[*ssa.BasicBlock]bool
-		for _, in := range g.Ins {
-			if call, ok := in.(*ssa.Call); ok && extFn(call.Common(), "strings", "HasPrefix") {
-				inner, innerBody = loopOf(call.Block())
+		for _, f := range g.AllEdgeFacts() {
+			if _, pfx, _, ok := prefixFact(f); ok && pfx == directive {
+				inner, innerBody = loopOf(g.Ins[f.Edge.From].Block())
 			}
 		}
 		if inner == nil {
@@ -365,12 +369,10 @@ func runC20(c *Ctx) {
 			}
 			// every comment with the prefix reaches the append
 			for _, f := range g.AllEdgeFacts() {
-				if f.Y == nil && f.Op == token.EQL {
-					if call, ok := f.X.(*ssa.Call); ok && extFn(call.Common(), "strings", "HasPrefix") {
-						start := g.Succ[f.Edge.From][f.Edge.K]
-						if p := g.Path([]int{start}, nil, func(n int) bool { return n == an }, func(n int) bool { return n != an && (n == h || isRet(g)(n)) }); p != nil {
-							bad = "a doc-comment line with the directive can be skipped without an entry"
-						}
+				if _, pfx, holds, ok := prefixFact(f); ok && holds && pfx == directive {
+					start := g.Succ[f.Edge.From][f.Edge.K]
+					if p := g.Path([]int{start}, nil, func(n int) bool { return n == an }, func(n int) bool { return n != an && (n == h || isRet(g)(n)) }); p != nil {
+						bad = "a doc-comment line with the directive can be skipped without an entry"
 					}
 				}
 			}
@@ -694,4 +696,85 @@ func varargValues(v ssa.Value) []ssa.Value {
 		res[i] = out[int64(i)]
 	}
 	return res
+}
+
+// prefixFact recognises a fact that says whether a string has a constant
+// prefix, however the test is spelled: strings.HasPrefix(s, p); the found
+// result of strings.CutPrefix(s, p); strings.TrimPrefix(s, p) compared with s
+// itself or by length (TrimPrefix returns s unchanged exactly when s does not
+// start with the non-empty p).
+func prefixFact(f Fact) (subject ssa.Value, prefix string, holds, ok bool) {
+	constStr := func(v ssa.Value) (string, bool) {
+		cs, ok := v.(*ssa.Const)
+		if !ok || cs.Value == nil || cs.Value.Kind() != constant.String {
+			return "", false
+		}
+		return constant.StringVal(cs.Value), true
+	}
+	strCall := func(v ssa.Value, name string) (*ssa.Call, string, bool) {
+		call, ok := v.(*ssa.Call)
+		if !ok || !extFn(call.Common(), "strings", name) || len(call.Common().Args) != 2 {
+			return nil, "", false
+		}
+		p, ok := constStr(call.Common().Args[1])
+		return call, p, ok && p != ""
+	}
+	if f.Y == nil {
+		if call, p, ok := strCall(f.X, "HasPrefix"); ok {
+			return call.Common().Args[0], p, f.Op == token.EQL, true
+		}
+		if ex, isEx := f.X.(*ssa.Extract); isEx && ex.Index == 1 {
+			if call, p, ok := strCall(ex.Tuple, "CutPrefix"); ok {
+				return call.Common().Args[0], p, f.Op == token.EQL, true
+			}
+		}
+		return nil, "", false, false
+	}
+	sameString := func(a, b ssa.Value) bool {
+		if a == b {
+			return true
+		}
+		pa, pb := pathString(accessPath(a)), pathString(accessPath(b))
+		ra, rb := accessPath(a), accessPath(b)
+		return pa != "" && pa == pb && len(ra) > 0 && len(rb) > 0 && ra[0].V == rb[0].V
+	}
+	lenOf := func(v ssa.Value) (ssa.Value, bool) {
+		call, ok := v.(*ssa.Call)
+		if !ok {
+			return nil, false
+		}
+		if bi, ok := call.Common().Value.(*ssa.Builtin); ok && bi.Name() == "len" {
+			return call.Common().Args[0], true
+		}
+		return nil, false
+	}
+	for _, pr := range [][2]ssa.Value{{f.X, f.Y}, {f.Y, f.X}} {
+		op := f.Op
+		if pr[0] != f.X {
+			op = swapOp(op)
+		}
+		// TrimPrefix(s, p) ==/!= s
+		if call, p, ok := strCall(pr[0], "TrimPrefix"); ok && sameString(call.Common().Args[0], pr[1]) {
+			switch op {
+			case token.NEQ:
+				return call.Common().Args[0], p, true, true
+			case token.EQL:
+				return call.Common().Args[0], p, false, true
+			}
+		}
+		// len(TrimPrefix(s, p)) ==/!=/</>= len(s)
+		if a, ok := lenOf(pr[0]); ok {
+			if b, ok := lenOf(pr[1]); ok {
+				if call, p, ok := strCall(a, "TrimPrefix"); ok && sameString(call.Common().Args[0], b) {
+					switch op {
+					case token.NEQ, token.LSS:
+						return call.Common().Args[0], p, true, true
+					case token.EQL, token.GEQ:
+						return call.Common().Args[0], p, false, true
+					}
+				}
+			}
+		}
+	}
+	return nil, "", false, false
 }
